@@ -12,3 +12,5 @@ def run(prog, rep):
     r_del.run(prog, rep)
     from ..rules import r_safe
     r_safe.run_rawbuf(prog, rep)
+    from ..rules import r_key as _rk
+    _rk.run_handles_only(prog, rep)
